@@ -333,9 +333,10 @@ class Tree(DictSWC):
     ) -> "Tree":
         """Read neuron tree from data frame."""
         names = get_names(names)
+        cols = names.cols() + [k for k in df.columns if k not in names.cols()]
         tree = Tree(
             df.shape[0],
-            **{k: df[k].to_numpy() for k in names.cols()},
+            **{k: df[k].to_numpy() for k in cols},
             source=source,
             comments=comments,
             names=names,
